@@ -7,6 +7,7 @@ import (
 	"runtime"
 	"strings"
 	"sync"
+	"sync/atomic"
 
 	"github.com/scrapli/scrapligo/util"
 
@@ -29,11 +30,21 @@ type c20Case struct {
 	N     int      `json:"n,omitempty"`
 	Ops   []string `json:"ops,omitempty"`
 	Procs int      `json:"procs,omitempty"`
+	// Window > 0: the producer stays at most Window chunks ahead of the consumer, so the queue is
+	// emptied over and over while an Enqueue is in flight
+	Window int `json:"window,omitempty"`
 }
 
 func genC20(r *sim.Rng, i int, tier string) *c20Case {
 	if i%3 == 2 {
 		c := &c20Case{Kind: "concurrent", N: 200 + r.Intn(2000), Procs: []int{1, 2, 4, 16}[r.Intn(4)]}
+		if r.Chance(1, 2) {
+			c.Window = 1 + r.Intn(3)
+			c.N = 20000 + r.Intn(40000)
+			if c.Procs == 1 {
+				c.Procs = 2
+			}
+		}
 		// the consumer's operation mix: a cyclic pattern in which every put-back is followed by at
 		// least two takes, so the run makes progress
 		k := 1 + r.Intn(4)
@@ -209,10 +220,17 @@ func runC20Case(id string, c *c20Case) {
 	var obtained []byte
 	panicMsg := ""
 	depthBad := ""
+	starved := ""
+	var enq, taken atomic.Int64 // Enqueue calls that have returned; chunks the consumer holds
+	var stop atomic.Bool        // the consumer has given up (failure recorded): the producer stops waiting for it
 	go func() {
 		defer wg.Done()
 		for i := 0; i < c.N; i++ {
+			for c.Window > 0 && int64(i)-taken.Load() >= int64(c.Window) && !stop.Load() {
+				runtime.Gosched()
+			}
 			q.Enqueue([]byte{byte(i >> 8), byte(i)})
+			enq.Add(1)
 			if i%64 == 0 {
 				runtime.Gosched()
 			}
@@ -220,6 +238,7 @@ func runC20Case(id string, c *c20Case) {
 	}()
 	go func() {
 		defer wg.Done()
+		defer stop.Store(true)
 		defer func() {
 			if p := recover(); p != nil {
 				panicMsg = fmt.Sprint(p)
@@ -231,12 +250,18 @@ func runC20Case(id string, c *c20Case) {
 		for len(obtained) < 2*c.N && spins < 50_000_000 {
 			o := c.Ops[k%len(c.Ops)]
 			k++
+			// chunks certainly in the queue for the whole duration of the next take: Enqueues that had
+			// returned before it started, minus what this (only) consumer holds
+			before := enq.Load() - int64(len(obtained)/2)
 			switch o {
 			case "D":
 				if b := q.Dequeue(); b != nil {
 					obtained = append(obtained, b...)
 					last = b
 				} else {
+					if before > 0 && starved == "" {
+						starved = fmt.Sprintf("Dequeue returned nothing although %d chunk(s) were in the queue (after %d chunks)", before, len(obtained)/2)
+					}
 					spins++
 					runtime.Gosched()
 				}
@@ -245,6 +270,9 @@ func runC20Case(id string, c *c20Case) {
 					obtained = append(obtained, b...)
 					last = b[len(b)-2:]
 				} else {
+					if before > 0 && starved == "" {
+						starved = fmt.Sprintf("DequeueAll returned nothing although %d chunk(s) were in the queue (after %d chunks)", before, len(obtained)/2)
+					}
 					spins++
 				}
 			case "R":
@@ -258,6 +286,7 @@ func runC20Case(id string, c *c20Case) {
 					depthBad = fmt.Sprint(d)
 				}
 			}
+			taken.Store(int64(len(obtained) / 2))
 		}
 	}()
 	done := make(chan struct{})
@@ -279,6 +308,9 @@ func runC20Case(id string, c *c20Case) {
 	case depthBad != "":
 		cs.Oracle = "impossible depth " + depthBad
 		cs.Sig = "C20:depth"
+	case starved != "":
+		cs.Oracle = starved
+		cs.Sig = "C20:nonempty-yields-nothing"
 	default:
 		ok := len(obtained) == 2*c.N
 		for i := 0; ok && i < c.N; i++ {
